@@ -17,6 +17,9 @@ SPECIAL = {'pinf', 'ninf', 'nan'}
 
 _BIN = {'Add': np.add, 'Sub': np.subtract, 'Mult': np.multiply, 'Div': np.divide, 'Pow': np.power}
 _CMP = {'Lt': np.less, 'LtE': np.less_equal, 'Gt': np.greater, 'GtE': np.greater_equal, 'Eq': np.equal, 'NotEq': np.not_equal}
+# the order np.sort / np.searchsorted use: IEEE order with NaN after everything (and NaN equal to NaN)
+_CMP['TotLt'] = lambda a, b: np.less(a, b) or (np.isnan(b) and not np.isnan(a))
+_CMP['TotLtE'] = lambda a, b: np.less_equal(a, b) or np.isnan(b)
 
 
 def leaves(tree, out=None):
